@@ -361,6 +361,24 @@ pub fn run_rows(seed: u64, tier: &str, out: &mut Out) {
     }
 }
 
+/// Layer-1 stream with wrapping: the same histories on a narrow, very tall terminal (every frame fits, lines wrap into several rows:
+/// texts are up to 2w+1 columns long, also with double-width glyphs and colour sequences), for the row-level model with `wrapW = w`
+pub fn run_rows_wrapping(seed: u64, tier: &str, out: &mut Out) {
+    let mut rng = Rng::new(seed ^ 0x2026);
+    let n = if tier == "thorough" { 100_000 } else { 3_000 };
+    for _ in 0..n {
+        let mut c = if rng.chance(1, 3) { gen_scenario(&mut rng) } else { gen_case(&mut rng, false) };
+        if c.w < 4 { c.w = 4 + (c.w % 3); }
+        c.h = 400;
+        let case = encode(&c).replacen("MULTI", "ROWS", 1);
+        let (obs, verdict) = run_case(&c);
+        let (_, snaps) = obs.split_once("panicked=false").unwrap_or(("", ""));
+        let frames: Vec<String> = snaps.split(" ; ").map(|s| s.trim_start().split_once(' ').map_or(String::new(), |(_, r)| r.to_string())).collect();
+        let frames = if snaps.trim().is_empty() { vec![] } else { frames };
+        out.emit(&case, &format!("panicked=false {} ORACLE {verdict}", frames.join(" ; ")));
+    }
+}
+
 /// C05 on MultiProgress targets: always rate limited, so that "skipped draws lose nothing" is judged at every
 /// painted frame (each member shows its latest requested rendering)
 pub fn run_limited(seed: u64, tier: &str, out: &mut Out) {
